@@ -176,12 +176,13 @@ def gen_lifecycle_consts():
 # ------------------------------------------------------------------------------------------------
 # stream 1: generated task graphs x fault placements on the virtual clock, both subsystems
 # ------------------------------------------------------------------------------------------------
-SWITCHES = [("d_cb_raise_breaks", "D22"), ("d_service_no_cbrec", "D20"), ("d_fin_cancel_escapes", "D140"), ("d_live_iter", "D141")]
+SWITCHES = [("d_cb_raise_breaks", "D22"), ("d_service_no_cbrec", "D20"), ("d_fin_cancel_escapes", "D140"), ("d_live_iter", "D141"),
+            ("d_call_cancel_kills", "D142")]
 HORIZON = 2 ** 28          # ticks of 2**-12 s; every instant of a case is a sum of distinct powers of two below this
 LOW_BITS = [0, 1, 2, 3]    # reserved for fault offsets
 HIGH_BITS = list(range(4, 28))
 EXC = {"KeyError": 1, "TypeError": 2, "ValueError": 3}
-KINDS = {"ev": "KTrig", "st": "KTrig", "svc": "KSvc", "create": "KCreate"}
+KINDS = {"ev": "KTrig", "st": "KTrig", "svc": "KSvc", "create": "KCreate", "csvc": "KSvc"}
 
 
 def _gen_base(rng):
@@ -193,11 +194,15 @@ def _gen_base(rng):
     kinds = [rng.choice(["ev", "st", "svc"])]
     for _ in range(1, n):
         kinds.append(rng.choice(["ev", "st", "svc", "create", "create"]))
+    # 40 % of the graphs with >= 2 tasks contain a @service that is started by a blocking service.call of another task
+    callee = rng.randrange(1, n) if n >= 2 and rng.random() < 0.4 else None
+    if callee is not None:
+        kinds[callee] = "csvc"
     ncb = rng.choice([1, 2, 2, 3, 3, 4])
     cbs = []
     for _j in range(ncb):
         cbs.append({"sleep": 1 if rng.random() < 0.35 else 0, "raise": rng.random() < 0.2})
-    nonsvc = [k for k in range(n) if kinds[k] != "svc"]
+    nonsvc = [k for k in range(n) if kinds[k] not in ("svc", "csvc")]
     # a suspending callback is only ever registered on this task
     cb_target = [(rng.choice(nonsvc) if nonsvc and rng.random() < 0.85 else rng.randrange(n)) for _ in range(ncb)]
     bits = HIGH_BITS[:]
@@ -263,14 +268,25 @@ def _gen_base(rng):
         while pos < len(st) and pos > 0 and st[pos - 1][0] == "wait":
             pos -= 1
         st.insert(max(pos, lo), ["create", c])
+    if callee is not None:
+        callers = [p for p in range(n) if p != callee]
+        p = rng.choice(callers)
+        st = tasks[p]["steps"]
+        stop = len(st)
+        for k, s_ in enumerate(st):
+            if s_[0] in ("raise", "ret", "cancelself"):
+                stop = k
+                break
+        lo = min(0 if relaxed else 1, stop)
+        st.insert(rng.randint(lo, stop), ["call", callee])
     # allocate distinct power-of-two durations
     need = sum(1 for t in tasks for s in t["steps"] if s[0] == "sleep") + sum(1 for cb in cbs if cb["sleep"]) + sum(
-        1 for t in tasks if t["kind"] != "create")
+        1 for t in tasks if t["kind"] not in ("create", "csvc"))
     if need > len(bits) - 3:
         return None
     # injections mostly early; in 70 % of the graphs each task's sleeps grow along its program (operations happen while
     # most other tasks are still alive), otherwise durations are in random order
-    ninj = sum(1 for t in tasks if t["kind"] != "create")
+    ninj = sum(1 for t in tasks if t["kind"] not in ("create", "csvc"))
     if rng.random() < 0.8:
         low = sorted(bits)[:ninj + 2]
         inj_bits = rng.sample(low, ninj)
@@ -279,7 +295,7 @@ def _gen_base(rng):
     bits = [b for b in bits if b not in inj_bits]
     ascending = rng.random() < 0.7
     for t in tasks:
-        if t["kind"] != "create":
+        if t["kind"] not in ("create", "csvc"):
             t["at"] = 2 ** inj_bits.pop()
         mine = [bits.pop() for s in t["steps"] if s[0] == "sleep"]
         if ascending:
@@ -290,14 +306,15 @@ def _gen_base(rng):
     for cb in cbs:
         if cb["sleep"]:
             cb["sleep"] = 2 ** bits.pop()
-    case = {"sub": rng.choice(["legacy", "dm"]), "horizon": HORIZON, "tasks": tasks, "cbs": cbs, "faults": []}
+    case = {"sub": rng.choice(["legacy", "dm"]), "horizon": HORIZON, "cbform": rng.choice(["func", "method"]), "tasks": tasks, "cbs": cbs,
+            "faults": []}
     # suspension points: (task, ["step", k], duration or None) and (task, ["cb", j], duration)
     points = []
     for i, t in enumerate(tasks):
         for k, s in enumerate(t["steps"]):
             if s[0] == "sleep":
                 points.append((i, ["step", k], s[1]))
-            elif s[0] == "wait":
+            elif s[0] in ("wait", "call"):
                 points.append((i, ["step", k], None))
     for j, cb in enumerate(cbs):
         if cb["sleep"]:
@@ -355,6 +372,25 @@ FIXED = [
 ]
 
 
+FIXED += [
+    # D142: the service run started by a blocking call is cancelled: the caller must not be
+    {"tasks": [{"kind": "ev", "at": 2 ** 10, "steps": [["sleep", 2 ** 12], ["add", 0, 0, 5], ["call", 1], ["sleep", 2 ** 16], ["ret", 4]]},
+               {"kind": "csvc", "at": None, "steps": [["sleep", 2 ** 14], ["ret", 9]]}],
+     "cbs": [{"sleep": 0, "raise": False}], "faults": [{"task": 1, "pt": ["step", 0], "off": 3}]},
+    # the caller is cancelled while blocked in the call (C14-3 style): it ends there, and so does the service run
+    {"tasks": [{"kind": "st", "at": 2 ** 10, "steps": [["sleep", 2 ** 12], ["add", 0, 0, 5], ["call", 1], ["sleep", 2 ** 16], ["ret", 4]]},
+               {"kind": "csvc", "at": None, "steps": [["sleep", 2 ** 14], ["ret", 9]]},
+               {"kind": "ev", "at": 2 ** 11, "steps": [["sleep", 2 ** 13], ["cancel", 0], ["sleep", 2 ** 15], ["wait", 0], ["ret", 1]]}],
+     "cbs": [{"sleep": 0, "raise": False}], "faults": []},
+    # callbacks that are distinct callables over one underlying function (C14-2 style): re-registration replaces, removal
+    # removes that one only
+    {"cbform": "method",
+     "tasks": [{"kind": "ev", "at": 2 ** 10, "steps": [["sleep", 2 ** 12], ["add", 0, 0, 5], ["add", 0, 1, 6], ["add", 0, 2, 7], ["add", 0, 0, 8],
+                                                        ["rem", 0, 1], ["sleep", 2 ** 13], ["ret", 3]]}],
+     "cbs": [{"sleep": 0, "raise": False}, {"sleep": 0, "raise": False}, {"sleep": 0, "raise": False}], "faults": []},
+]
+
+
 def _names(case):
     return sorted({s[1] for t in case["tasks"] for s in t["steps"] if s[0] == "claim"})
 
@@ -381,6 +417,8 @@ def _q_step(s):
         return "SRaise"
     if op == "ret":
         return f"SRet {q.N(s[1])}"
+    if op == "call":
+        return f"SCall {q.N(s[1])}"
     raise ValueError(s)
 
 
@@ -405,6 +443,8 @@ def _q_event(e):
         k = f"EX {q.N(EXC.get(e[3], 0))}"
     elif kind == "w":
         k = f"EW {q.N(e[3])} {q.boolean(e[4])} {q.boolean(e[5])} {q.N(_res_code(e[6]))}"
+    elif kind == "r":
+        k = f"ER {q.N(e[3])} {q.boolean(e[4])} {q.boolean(e[5])} {q.N(_res_code(e[6]))}"
     elif kind == "cb":
         k = f"ECb {q.N(e[3])} {q.N(e[4])}"
     elif kind == "ce":
@@ -420,11 +460,12 @@ class GraphStream(Stream):
     name = "graphs"
     rule = ("task graphs of 1-4 tasks started by @event_trigger / @state_trigger / @service / task.create, each a straight-line "
             "program of sleep / add_done_callback / remove_done_callback / wait / cancel(other|self|no-arg) / task.unique / "
-            "raise / return steps over 1-4 callback functions (some suspend, some raise), every duration a distinct power of "
+            "raise / return / blocking service.call of a generated @service (40 % of the graphs) steps over 1-4 callbacks (plain "
+            "functions or, per graph, bound methods of distinct instances of one pyscript class; some suspend, some raise), every duration a distinct power of "
             "two so that all timers fall on distinct virtual instants (= one schedule per graph; in 40 % of the graphs tasks may also act right after being created / right after a wait, i.e. several tasks act inside one instant in ready-queue order); per graph: the graph itself "
-            "+ EVERY suspension point (sleep, wait, suspended done-callback) once as a cancellation point (the real "
+            "+ EVERY suspension point (sleep, wait, blocking service call, suspended done-callback) once as a cancellation point (the real "
             "user_task_cancel is invoked at a random instant inside the suspension, 20 % with a second fault) and once as a "
-            "raise point; 5 fixed graphs x 2 subsystems; legacy and default subsystem chosen per graph; the script reports "
+            "raise point; 8 fixed graphs x 2 subsystems; legacy and default subsystem chosen per graph; the script reports "
             "through event.fire, the listener records virtual time, the running task and a registry snapshot per event; "
             "non-trivial = at least 2 tasks or a fault or a callback; distinct by the whole case")
     requires = "From PV Require Import Task.Lifecycle Task.LifecycleCheck."
